@@ -149,6 +149,8 @@ def run_cli(case):
         try:
             if route == "kw":
                 kw = {"path": root, "progress": 0, "meta_version": str(v)}
+                if v == 1 and not opts["V"] and case.get("kw_nover"):
+                    del kw["meta_version"]        # not passed at all: the library's own default has to mean v1 too
                 if opts["A"]:
                     # library callers may pass one tracker as a plain string
                     kw["announce"] = ann[0] if (case.get("kw_str") and len(ann) == 1) else list(ann)
